@@ -1,6 +1,6 @@
 """C09 - JAX text loaders (clauses: KIND prefix/variant/annotate, DOM `NOT`, ROLE column maps, file<->parser, obo keys)"""
 import re
-from engines import enum_arms, split_columns, columns_of, user_root_locals, string_key_arms, str_const, kind_of_callee, positive_edges, const_str_of
+from engines import adaptor_chain, TRUNCATING_ADAPTORS, enum_arms, split_columns, columns_of, user_root_locals, string_key_arms, str_const, kind_of_callee, positive_edges, const_str_of
 from prov import Prov, params_of, field_names
 
 CLAIM = ("(KIND) in the phenotype.hpoa parser the `OMIM` prefix constructs DiseaseKind::Omim and `ORPHA` DiseaseKind::Orpha, the Omim arm annotates with "
@@ -95,6 +95,15 @@ def run(ck, prog, ctx):
                 in_arms |= pr.region(edge)
         stray = [t for bi, t in pr.calls() if "annotate_" in (t.callee.res or "") and bi not in in_arms]
         ck.ob("KIND", "parse/other-lines", not stray, "no annotate call outside the Omim/Orpha arms" if not stray else "an annotate call is reachable for lines of other databases", where=pr.where())
+
+    if pr is not None:
+        nexts = [(bi, t) for bi, t in pr.calls() if t.callee.method == "next" and t.callee.trait == "std::iter::Iterator"]
+        for bi, t in nexts:
+            chain = adaptor_chain(pr, pvn, t.args[0])
+            if "lines" not in chain:
+                continue
+            cut = [m for m in chain if m in TRUNCATING_ADAPTORS]
+            ck.ob("ROLE", "hpoa/every-line", not cut, "disease_to_hpo::parse looks at %s" % ("every line of phenotype.hpoa (comment and foreign lines are ignored line by line)" if not cut else "the lines that remain after `%s`: a disease row at the top of the file is silently dropped" % ", ".join(cut)), where=pr.where(t.line))
 
     # ------------------------------------------------------------------ DOM: NOT
     pc = prog.body(D + "parse_disease_components")
